@@ -360,7 +360,8 @@ def calculate_TS(
 
         TS = ana.calculate_test_statistic(
             log_lambda=log_lambda_max,
-            fitparam_values=fitparam_values)
+            fitparam_values=fitparam_values,
+            llhratio=ana.llhratio)
 
         if (max_TS is None) or (TS > max_TS):
             max_TS = TS
